@@ -122,6 +122,7 @@ type Scenario struct {
 	Topo   string `json:"topo"` // direct (default) | proxy | demux | pd
 	Ser    bool   `json:"ser"`
 	Manual bool   `json:"manual"` // deliveries released by dlv steps
+	Cap    int    `json:"cap"`    // > 0: bounded transport, a Write blocks while Cap envelopes are unread in that direction
 	NCli   int    `json:"ncli"`
 	RawSrv bool   `json:"rawsrv"` // no real server: raw peer injects s2c
 	RawCli bool   `json:"rawcli"` // no real client: raw peer injects c2s
@@ -461,6 +462,7 @@ func (rt *runtimeS) setup() {
 	case "", "direct":
 		for i := 1; i <= sc.NCli; i++ {
 			l := newLink(i, !sc.Manual, sc.Ser, "CW", "SR", "SW", "CR")
+			l.c2s.cap, l.s2c.cap = sc.Cap, sc.Cap
 			rt.startClient(i, l, l.cli)
 			rt.startServer(i, l, l.srv)
 		}
